@@ -456,6 +456,7 @@ pub fn replay_file(engine: &dyn Engine, j: &Value) -> (bool, Vec<String>, Vec<(S
 
 pub struct CheckResult {
     pub exit: i32,
+    pub evidence: Value,
 }
 
 /// The whole check for one property on one engine.
@@ -475,7 +476,7 @@ pub fn check(engine: &dyn Engine, o: &Opts) -> CheckResult {
     let det = determinism_selftest(engine, o);
     if let Err(e) = &det {
         eprintln!("HARNESS-ERROR determinism self-test failed: {}", e);
-        return CheckResult { exit: 2 };
+        return CheckResult { exit: 2, evidence: Value::Null };
     }
     // 2. the search
     let b = run_batch(engine, o.seed, 0, o.runs, o.workers, o.max_wall_s, false);
@@ -605,13 +606,6 @@ pub fn check(engine: &dyn Engine, o: &Opts) -> CheckResult {
         "wall_s": wall,
         "violations": n_viol,
     });
-    if let Some(dir) = std::path::Path::new(&o.evidence_path).parent() {
-        let _ = std::fs::create_dir_all(dir);
-    }
-    if let Err(e) = std::fs::write(&o.evidence_path, serde_json::to_string_pretty(&ev).unwrap()) {
-        eprintln!("HARNESS-ERROR cannot write evidence: {}", e);
-        exit = 2;
-    }
     println!(
         "done property={} runs={} distinct_nontrivial={} violations={} known={} wall={:.1}s exit={}",
         o.property,
@@ -622,7 +616,20 @@ pub fn check(engine: &dyn Engine, o: &Opts) -> CheckResult {
         wall,
         exit
     );
-    CheckResult { exit }
+    CheckResult { exit, evidence: ev }
+}
+
+pub fn write_evidence(path: &str, ev: &Value) -> bool {
+    if let Some(dir) = std::path::Path::new(path).parent() {
+        let _ = std::fs::create_dir_all(dir);
+    }
+    match std::fs::write(path, serde_json::to_string_pretty(ev).unwrap()) {
+        Ok(()) => true,
+        Err(e) => {
+            eprintln!("HARNESS-ERROR cannot write evidence: {}", e);
+            false
+        }
+    }
 }
 
 fn sample_runs(engine: &dyn Engine, seed: u64, n: u64) -> Vec<Value> {
